@@ -102,7 +102,14 @@ package logx
 //@   requires r != nil
 //@   ensures [disabled] r.days <= 0 ==> result == nil && calls(Glob) == 0
 //@   replay logx_outdated
+//@   replay-for only-names-before-the-boundary logx_daily_boundary
+// a backup is outdated only when its name sorts before the boundary name - both in the same (cleaned) spelling:
+// Glob hands back cleaned paths, and a boundary spelt from a raw file name such as "svc/../logs/app.log" compares
+// unrelated to them (every backup, the newest included, would count as outdated)
+//@   let boundaryName = pathclean(boundaryFile)
 //@   loop 1 invariant forall(i, 0, len(outdates), pathclean(outdates[i]) != pathclean(r.filename))
+//@   loop 1 iteration-ensures [only-names-before-the-boundary] len(outdates) == at_head(len(outdates)) + 1 ==> pathclean(file) < boundaryName && outdates[at_head(len(outdates))] == file
+//@   loop 1 iteration-ensures [nothing-else-touched] len(outdates) == at_head(len(outdates)) || len(outdates) == at_head(len(outdates)) + 1
 //@   ensures [never-the-current-file] forall(i, 0, len(result), pathclean(result[i]) != pathclean(r.filename))
 //@   ensures [boundary-from-now] calls(Format) == 1 ==> calls(time.Now) == 1 && arg(Format, 0) == ret(Add) && arg(Add, 0) == ret(time.Now) && arg(Add, 1) == 0 - 3600000000000 * (24 * r.days) && arg(Format, 1) == dateFormat
 // the boundary name is spelt exactly like a backup name of this rule: file name, the rule's OWN delimiter, date
